@@ -54,6 +54,8 @@ type Ctx struct {
 	// SigFilter, when set, drops reports whose signature it rejects (a shared sweep serving
 	// several properties reports only what concerns c.Prop)
 	SigFilter func(sig string) bool
+	// JudgeParse: apply the direct C01 oracle to every real-parser observation of the parse sweeps
+	JudgeParse bool
 }
 
 func (c *Ctx) Thorough() bool { return c.Tier == "thorough" }
